@@ -1621,6 +1621,10 @@ func init() {
 			for i := 0; i < c.N(150, 3000); i++ {
 				kC16FromFile.Do(c, g.fromFileCase())
 			}
+			// 9. more files than descriptors
+			for _, t := range c16ManyCases(c.Quick()) {
+				kC16Many.Do(c, t)
+			}
 			// 8. malformed documents
 			g = &c16G{r: c.Rand("c16.malformed")}
 			for i := 0; i < c.N(200, 4000); i++ {
